@@ -265,9 +265,6 @@ public:
             m_fac_f.noalias() = w - Vs * h;
             m_beta = m_op.norm(m_fac_f);
 
-            if (m_beta > RealScalar(0.717) * m_op.norm(h))
-                continue;
-
             // f/||f|| is going to be the next column of V, so we need to test
             // whether (V^H)B(f/||f||) ~= 0
             m_op.adjoint_product(Vs, m_fac_f, Vf.head(i1));
